@@ -24,6 +24,9 @@ with a change.
        literal, an expression compared with itself, the same test twice in
        one if/elif chain, a dict display with a repeated constant key
 
+  .96  management commands: every options['key'] read is a dest the
+       command's add_arguments() declares (or one of Django's base options)
+
 Each property runs them over the files listed in its anchors (read from
 /verif/properties.jsonl on every run)."""
 from __future__ import annotations
@@ -453,3 +456,88 @@ def run(ctx, prop: str):
     if not hit:
         ctx.ok((mods[0].name, '*'), '%d comparisons, if/elif chains and dict '
                'displays: none is vacuous' % n_cmp)
+
+
+DJANGO_BASE_OPTIONS = {'verbosity', 'settings', 'pythonpath', 'traceback',
+                       'no_color', 'force_color', 'skip_checks', 'args',
+                       'stdout', 'stderr'}
+
+
+def declared_dests(add_arguments_node) -> Set[str]:
+    out = set()
+    for c in ast.walk(add_arguments_node):
+        if not (isinstance(c, ast.Call) and call_name(c) == 'add_argument'):
+            continue
+        dest = None
+        for k in c.keywords:
+            if k.arg == 'dest' and isinstance(k.value, ast.Constant):
+                dest = k.value.value
+        if dest is None:
+            flags = [a.value for a in c.args if isinstance(a, ast.Constant)
+                     and isinstance(a.value, str)]
+            longs = [f for f in flags if f.startswith('--')]
+            if longs:
+                dest = longs[0][2:].replace('-', '_')
+            elif flags and not flags[0].startswith('-'):
+                dest = flags[0]
+            elif flags:
+                dest = flags[0].lstrip('-')
+        if dest:
+            out.add(dest)
+    return out
+
+
+def run_options(ctx, prop: str):
+    p = ctx.program
+    files = anchor_files(prop)
+    mods = [m for m in p.modules.values() if m.relpath in files and
+            '/management/commands/' in m.relpath]
+    if not mods:
+        return
+    pid = prop.upper()
+    ctx.rule('R-%s.96' % pid)
+    n, hit = 0, False
+    for m in mods:
+        for c in m.classes.values():
+            aa = c.methods.get('add_arguments')
+            if aa is None:
+                continue
+            if any(isinstance(x, ast.Call) and isinstance(x.func, ast.Name)
+                   and x.func.id == 'super' for x in ast.walk(aa.node)):
+                continue      # inherits options of an external command
+            dests = declared_dests(aa.node) | DJANGO_BASE_OPTIONS
+            for st in c.node.body:
+                if not isinstance(st, ast.FunctionDef):
+                    continue
+                for x in ast.walk(st):
+                    key = None
+                    if isinstance(x, ast.Subscript) and \
+                            isinstance(x.value, ast.Name) and \
+                            x.value.id == 'options' and \
+                            isinstance(x.slice, ast.Constant):
+                        key = x.slice.value
+                    if isinstance(x, ast.Call) and \
+                            isinstance(x.func, ast.Attribute) and \
+                            x.func.attr in ('get', 'pop') and \
+                            isinstance(x.func.value, ast.Name) and \
+                            x.func.value.id == 'options' and x.args and \
+                            isinstance(x.args[0], ast.Constant):
+                        key = x.args[0].value
+                    if key is None:
+                        continue
+                    n += 1
+                    if key not in dests:
+                        hit = True
+                        ctx.finding((m.name, '%s.%s' % (c.name, st.name)), x,
+                                    '%s.%s reads options[%r], which '
+                                    'add_arguments() does not declare '
+                                    '(declared: %s): KeyError, or a flag '
+                                    'that is silently never set' % (
+                                        c.name, st.name, key,
+                                        ', '.join(sorted(
+                                            dests - DJANGO_BASE_OPTIONS))),
+                                    key='undeclared-option:%s' % key)
+    ctx.counts['R-%s.96 option keys read by the anchor commands' % pid] = n
+    if n and not hit:
+        ctx.ok((mods[0].name, '*'), 'all %d option keys read are declared '
+               'by add_arguments()' % n)
